@@ -153,6 +153,17 @@ Theorem C02_extra_files_ordered :
 Proof. exact (fun H r c1 c2 => extra_files_ordered_c H the_spec the_extra_order r c1 c2 the_spec_good the_extra_order_ok). Qed.
 Print Assumptions C02_extra_files_ordered.
 
+(* The file-content digests inside the pre-images (compiler binary, extra hashed files, input file): the digest of a
+   reader is H of ALL its bytes, whatever the sizes of the pieces the reads deliver (short reads of FIFOs, network
+   and FUSE file systems included); the_reader_loop is the translated loop of Digest::reader_sync_with. *)
+Theorem C02_reader_digest_pieces :
+  forall (H : bytes -> bytes) (ps1 ps2 : list bytes),
+    forallb nonempty ps1 = true -> forallb nonempty ps2 = true -> concat ps1 = concat ps2 ->
+    reader_digest the_reader_loop H ps1 = H (concat ps1) /\
+    reader_digest the_reader_loop H ps1 = reader_digest the_reader_loop H ps2.
+Proof. exact (fun H ps1 ps2 => reader_digest_pieces the_reader_loop H ps1 ps2 the_reader_loop_ok). Qed.
+Print Assumptions C02_reader_digest_pieces.
+
 (* BLAKE3's collision-freeness is a hypothesis on exactly the two encodings compared. *)
 Theorem C02_key_iff :
   forall (H : bytes -> bytes) (r1 r2 : creq),
